@@ -105,7 +105,8 @@ def augment(rng, spec, profile, force=None):
         for q in range(k):
             a = rng.choice(cand)
             jn = _free_label(spec, "create_junction", 810000 + 10 * q)
-            spec["ops"].append(["create_junction", dict(pn_bar=p0, tfluid_k=t0, height_m=0., index=jn)])
+            spec["ops"].append(["create_junction", dict(pn_bar=p0, tfluid_k=t0 + rng.choice([0., 15., 40., -8.]), height_m=0.,
+                                                        index=jn)])
             ins = not (q == 0 and oos_first) and rng.random() < 0.9
             spec["ops"].append(["create_pump", dict(from_junction=a, to_junction=jn, std_type=types[q], in_service=ins,
                                                     index=_free_label(spec, "create_pump", rng.choice([0, 50, 100009]) + (k - q)))])
@@ -117,7 +118,7 @@ def augment(rng, spec, profile, force=None):
     if profile == "gas" and ("compressors" in force or rng.random() < 0.3) and cand:
         hof = {kw["index"]: kw.get("height_m", 0.) for kw in _junction_ops(spec)}
         k = rng.randint(1, 3)
-        ratios = rng.sample([1.05, 1.2, 1.5, 1.8], k)
+        ratios = rng.sample([0.8, 0.9, 1.0, 1.05, 1.2, 1.5, 1.8], k)      # below, at and above 1: the property makes no exception
         for q in range(k):
             a = rng.choice(cand)
             jn = _free_label(spec, "create_junction", 820000 + 10 * q)
@@ -154,6 +155,12 @@ def altitude(rng, spec, force=False):
         for kw in _junction_ops(spec):
             kw["height_m"] = kw.get("height_m", 0.) + h0
         spec["features"] = list(spec.get("features", [])) + ["altitude"]
+    # junction temperatures that differ along the net (in a hydraulic run they stay as given): every clause that
+    # involves a density / volume flow must use the same temperature the result tables are computed with
+    if rng.random() < 0.5:
+        for kw in _junction_ops(spec):
+            kw["tfluid_k"] = kw["tfluid_k"] + rng.choice([0., 0., 12., 35., -6.])
+        spec["features"] = list(spec.get("features", [])) + ["temperatures"]
     return spec
 
 
@@ -392,11 +399,11 @@ def step_case(rng, net, alpha):
     return txt, {"n": len(p_old), "nb": len(m_old), "slack": len(msl_old), "alpha": alpha}
 
 
-def constflow_cases(rng, net):
+def constflow_cases(rng, net, use_numba=False):
     """real ConstFlow.create_pit_node_entries of Sink / Source / MassStorage on an integer LOAD column"""
     import pandapipes.component_models as cm
     pf, bsm, IN, IB, ps = _mods()
-    drive.stages(net, use_numba=rng.random() < 0.0)
+    drive.stages(net, use_numba=use_numba)
     out = []
     for comp in (cm.Sink, cm.Source, cm.MassStorage):
         tbl = comp.table_name()
@@ -524,13 +531,52 @@ def constflow_result_cases(rng, net):
     return out
 
 
+def sumbygroup_cases(rng, n):
+    """real _sum_by_group (numpy path, numba dense accumulator, numba sparse-label fallback) on unsorted, repeated,
+    dense / sparse / high integer labels with one or two integer value arrays -> gcase records + metas"""
+    import pandapipes  # noqa: F401
+    tb = sys.modules["pandapipes.pf.internals_toolbox"]
+    out = []
+    for k in range(n):
+        L = rng.randint(1, 14)
+        regime = ["dense", "sparse", "high", "mixed"][k % 4]
+        pool = {"dense": list(range(0, max(2, L // 2 + 1))),
+                "sparse": rng.sample(range(0, 40 * L + 50), max(2, L // 2 + 1)),
+                "high": rng.sample(range(100000, 100000 + 50 * L + 50), max(2, L // 2 + 1)),
+                "mixed": [0, 1, 2] + rng.sample(range(10 * L, 2000 * L + 100), max(1, L // 3))}[regime]
+        labels = [rng.choice(pool) for _ in range(L)]
+        if L >= 3:                                 # a repeated label separated by another one
+            a, b = rng.sample(pool, 2)
+            i = rng.randrange(L - 2)
+            labels[i], labels[i + 1], labels[i + 2] = a, b, a
+        vals = [rng.randint(-9, 9) for _ in range(L)]
+        use_numba = k % 2 == 1
+        dt = [np.int64, np.uint32, np.int32][k % 3]         # table columns are u4, pit lookups int32 / int64
+        ind = np.array(labels, dtype=dt)
+        v1 = np.array(vals, dtype=np.float64)
+        if k % 5 == 0:
+            res = tb._sum_by_group(use_numba, ind, v1, np.ones_like(v1, dtype=np.int32))
+            got = [(int(i), _ints([s])[0]) for i, s in zip(res[0], res[1])]
+            cnt = [(int(i), _ints([s])[0]) for i, s in zip(res[0], res[2])]
+            out.append(("(mkG %s %s)" % (clist(["(%s, 1%%Z)" % cz(l) for l in labels]),
+                                         clist(["(%s, %s)" % (cz(i), cz(s)) for i, s in cnt])),
+                        {"regime": regime, "numba": use_numba, "len": L, "arrays": 2}))
+        else:
+            res = tb._sum_by_group(use_numba, ind, v1)
+            got = [(int(i), _ints([s])[0]) for i, s in zip(res[0], res[1])]
+        out.append(("(mkG %s %s)" % (clist(["(%s, %s)" % (cz(l), cz(v)) for l, v in zip(labels, vals)]),
+                                     clist(["(%s, %s)" % (cz(i), cz(s)) for i, s in got])),
+                    {"regime": regime, "numba": use_numba, "len": L, "arrays": 1}))
+    return out
+
+
 MATRIX_HEAD = ("From Coq Require Import ZArith QArith List Bool.\nFrom PP Require Import C01.Model C01.Corr.\n"
                "Import ListNotations.\n")
 
 
 def cases_file(kind, records):
-    okf = {"m": "mcase_ok", "s": "scase_ok", "l": "lcase_ok", "f": "fcase_ok", "e": "ecase_ok", "r": "rcase_ok"}[kind]
-    typ = {"m": "mcase", "s": "scase", "l": "lcase", "f": "fcase", "e": "ecase", "r": "rcase"}[kind]
+    okf = {"m": "mcase_ok", "s": "scase_ok", "l": "lcase_ok", "f": "fcase_ok", "e": "ecase_ok", "r": "rcase_ok", "g": "gcase_ok"}[kind]
+    typ = {"m": "mcase", "s": "scase", "l": "lcase", "f": "fcase", "e": "ecase", "r": "rcase", "g": "gcase"}[kind]
     return MATRIX_HEAD + "Definition cs : list %s := [\n%s\n].\nEval vm_compute in (summary %s cs).\n" % (
         typ, ";\n".join(records), okf)
 
